@@ -226,6 +226,12 @@ func (g *rnsGen) pickName() string {
 			return s
 		}
 	}
+	if g.r.Intn(7) == 0 {
+		// the free name `Init` will hand out at one of the next heights (it depends on the height only):
+		// registering it first makes the hand-out collide with a paid, live name
+		h := g.c.H + int64(g.r.Intn(6))
+		return rnstypes.MakeName(int(h), h) + ".jkl"
+	}
 	return rnsNamePool[g.r.Intn(len(rnsNamePool))]
 }
 
